@@ -5,7 +5,7 @@ import json,subprocess,sys,os,concurrent.futures as cf
 prof,cells,oracle,mx=sys.argv[1],sys.argv[2],sys.argv[3],int(sys.argv[4])
 B='/verif/target/build-main/target/release/ysim'
 def worker(i):
-    out=subprocess.run([B,'worker',prof,'quick','1',str(i),'16',cells,'600'],capture_output=True,text=True).stdout
+    out=subprocess.run([B,'worker',prof,os.environ.get('TIER','quick'),'1',str(i),'16',cells,'1200'],capture_output=True,text=True).stdout
     return json.loads(out.strip().splitlines()[-1])
 fails=[]
 with cf.ThreadPoolExecutor(16) as ex:
@@ -16,7 +16,7 @@ print(len(fails),'failures retained for',oracle)
 D='/tmp/sf_'+prof; os.makedirs(D,exist_ok=True)
 def mini(f):
     p='%s/%s.json'%(D,f['cell_seed'])
-    r=subprocess.run([B,'triage',prof,'quick',str(f['cell_seed']),p],capture_output=True,text=True)
+    r=subprocess.run([B,'triage',prof,os.environ.get('TIER','quick'),str(f['cell_seed']),p],capture_output=True,text=True)
     return p,r.stdout[-300:]
 def kinds(p):
     rf=json.load(open(p)); ks=[]
